@@ -6,6 +6,29 @@ V = os.path.dirname(os.path.dirname(os.path.abspath(__file__)))
 props = [json.loads(l) for l in open(os.path.join(V, 'properties.jsonl'))]
 
 CHECKS = {
+    'C02': dict(
+        category='exploration', design_ref='DESIGN.md §4 C02',
+        technique='runtime monitoring: labelled workload (generated well-formed documents, single-constraint mutants) with verdict oracle, pyexpat as discarding second opinion, under ASan+UBSan',
+        text='Well-formed side: documents rendered from random infosets must be parsed without fatal error by 12 API/scanner combinations with namespaces on and off. '
+             'Ill-formed side: ~75 mutation operators, each violating one named well-formedness, namespace or encoding constraint, are applied to generated documents; every '
+             'mutant must produce a fatal error or a documented exception. Held on the executions observed (counts per operator and configuration in the evidence).',
+        note='Trusted: each operator really violates a constraint (confirmed per case by pyexpat for XML 1.0 documents; XML 1.1 and namespace operators by construction), '
+             'generator names lie in the intersection of the 4th/5th edition name classes. Sanitizer reports in this workload count as violations.'),
+    'C06': dict(
+        category='exploration', design_ref='DESIGN.md §4 C06',
+        technique='runtime monitoring: scope-stack reference model over generated namespace-well-formed documents; event and DOM-lookup oracles; namespace mutants; ASan+UBSan',
+        text='For generated documents with nested, shadowed, re-declared and un-declared prefixes (incl. >16 declarations per element and entity content inheriting '
+             'the default namespace) the (URI, local name, qname) of every element and attribute, the balance and scoping of SAX2 prefix-mapping events, the namespace of '
+             'DOM declaration attributes and the answers of lookupNamespaceURI / lookupPrefix / isDefaultNamespace on elements, attributes and child nodes are compared '
+             'with the generator\'s scope stack under 8 API/scanner configurations; 11 namespace-constraint mutants must be fatal. Held on what was observed.',
+        note='Trusted: the generator scope model. lookupPrefix may return any validly bound prefix; isDefaultNamespace(null) and lookups of xml/xmlns are not judged (DOM L3 leaves them open).'),
+    'C04': dict(
+        category='exploration', design_ref='DESIGN.md §4 C04',
+        technique='runtime monitoring: metamorphic/differential oracle (one-shot parse vs hostile chunk schedules, file, stdin pipe; buffer-boundary sliding) with refill hooks as coverage proof; ASan+UBSan',
+        text='The same bytes (well-formed documents and mutants) are parsed from memory in one piece and through streams returning 1, 2, 3, 7 or random byte counts, from a '
+             'file and from a pipe on stdin; events, error codes and error positions must be identical. A document containing every boundary-sensitive construct is padded so that '
+             'the 16384-character and 49152-byte buffer boundaries fall on each of its offsets (UTF-8 and UTF-16); hook counters prove the refills. Held on what was observed.',
+        note='Trusted: the one-shot parse of the same build is the reference (no model). Schedules whose first read is shorter than the first markup are attributed to known finding F05.'),
     'C03': dict(
         category='exploration', design_ref='DESIGN.md §4 C03',
         technique='runtime monitoring: reference-model oracle (infoset generator) + differential between APIs/scanners, under ASan+UBSan',
